@@ -176,6 +176,17 @@ func c09StressRound(e *vEnv, rng *rand.Rand, withReload bool) (key, msg string, 
 		// one secret always comes with the same generation (it is one client)
 		s.gen = gens[s.secret%len(gens)]
 		w := vWrapper(vSecret(s.secret), s.tt, 0, c09Coverts[s.covert], true, rng.Intn(3) == 0, 4, s.gen, pb.RegistrationSource_API, net.ParseIP("198.51.100.7").To4())
+		// deliveries of one registration differ in what a peer station or a second registrar adds:
+		// the pre-scanned mark, the source, the other client flags
+		if rng.Intn(3) == 0 {
+			w.RegistrationPayload.Flags.Prescanned = proto.Bool(rng.Intn(2) == 0)
+		}
+		if rng.Intn(4) == 0 {
+			w.RegistrationPayload.Flags.ProxyHeader = proto.Bool(rng.Intn(2) == 0)
+		}
+		if rng.Intn(3) == 0 {
+			w.RegistrationSource = []pb.RegistrationSource{pb.RegistrationSource_Detector, pb.RegistrationSource_DetectorPrescan, pb.RegistrationSource_BidirectionalAPI}[rng.Intn(3)].Enum()
+		}
 		b, _ := proto.Marshal(w)
 		msgs = append(msgs, b)
 		specs = append(specs, s)
@@ -249,7 +260,13 @@ func c09StressRound(e *vEnv, rng *rand.Rand, withReload bool) (key, msg string, 
 					}
 					id := r.transports[reg.Transport].GetIdentifier(reg)
 					if found, ok := rm.GetRegistrations(reg.PhantomIp)[id]; ok {
-						rm.MarkActive(found.(*DecoyRegistration))
+						fr := found.(*DecoyRegistration)
+						rm.MarkActive(fr)
+						// what the relay reads from the registration it was handed
+						_ = fr.Flags.GetProxyHeader()
+						_ = fr.PreScanned()
+						_ = fr.Covert
+						_ = fr.IDString()
 						atomic.AddInt64(&activations, 1)
 					}
 					_ = rm.CountRegistrations(reg.PhantomIp)
